@@ -27,7 +27,12 @@ struct Run {
 }
 
 fn poll_walk(w: &AWorld, cx: &Conc, start: &vfs::async_vfs::AsyncVfsPath, plan: &[usize]) -> Run {
+    poll_walk_f(w, cx, start, plan, 0)
+}
+fn poll_walk_f(w: &AWorld, cx: &Conc, start: &vfs::async_vfs::AsyncVfsPath, plan: &[usize], fail_md: usize) -> Run {
     let ctl = w.pend.as_ref().unwrap();
+    ctl.fail_metadata_at.store(fail_md, Ordering::SeqCst);
+    ctl.metadata_calls.store(0, Ordering::SeqCst);
     *ctl.plan.lock().unwrap() = plan.to_vec();
     ctl.next.store(0, Ordering::SeqCst);
     ctl.on.store(true, Ordering::SeqCst);
@@ -148,9 +153,19 @@ pub fn run(lts: &Lts, cfgs: &[String], seed: u64, trees: usize, dense: usize, pa
             for _ in 0..dense {
                 plans.push((0..n + 3).map(|_| if rng.gen_bool(0.5) { rng.gen_range(1..4) } else { 0 }).collect());
             }
+            // a failing metadata call in the middle of the walk: an Err item, no panic, the stream still ends
+            let nmd = w.pend.as_ref().unwrap().metadata_calls.load(Ordering::SeqCst);
+            for k in 1..=nmd {
+                for plan in [vec![], (0..n).map(|i| (i + k) % 2).collect::<Vec<_>>()] {
+                    let r = poll_walk_f(&w, &cx, &start, &plan, k);
+                    out.begin(&json!({"ev":"awalk","fault":k,"cfg":format!("async:{cfg}"),"tree":tree,"plan":plan,"c":r.c,"items":r.items,"errs":r.errs,"polls":r.polls,
+                                      "ended":r.ended,"points":r.points,"ref":reference.items}));
+                    runs += 1;
+                }
+            }
             for plan in plans {
                 let r = poll_walk(&w, &cx, &start, &plan);
-                out.begin(&json!({"ev":"awalk","cfg":format!("async:{cfg}"),"tree":tree,"plan":plan,"c":r.c,"items":r.items,"errs":r.errs,"polls":r.polls,
+                out.begin(&json!({"ev":"awalk","fault":0,"cfg":format!("async:{cfg}"),"tree":tree,"plan":plan,"c":r.c,"items":r.items,"errs":r.errs,"polls":r.polls,
                                   "ended":r.ended,"points":r.points,"ref":reference.items}));
                 runs += 1;
                 nplans += 1;
